@@ -325,13 +325,13 @@ def _worker(widx, wseed, tier, check):
                 raise Failure(why)
         profiles = ["classic"] + (["classes"] if genclass is not None else [])
         for prof in profiles:
-            f = hyp_search(perm_case(prof), prop, common.derive_seed(wseed, prof), 120 if quick else 2500, stats)
+            f = hyp_search(perm_case(prof), prop, common.derive_seed(wseed, prof), 120 if quick else 1500, stats)
             if f:
                 failures.append(f)
-        f = hyp_search(rt_case(), prop, common.derive_seed(wseed, "rt"), 80 if quick else 2000, stats)
+        f = hyp_search(rt_case(), prop, common.derive_seed(wseed, "rt"), 80 if quick else 1200, stats)
         if f:
             failures.append(f)
-        f = hyp_search(gb_case(), prop, common.derive_seed(wseed, "gb"), 60 if quick else 1500, stats)
+        f = hyp_search(gb_case(), prop, common.derive_seed(wseed, "gb"), 60 if quick else 800, stats)
         if f:
             failures.append(f)
     return {"stats": stats.export(), "failures": failures}
